@@ -396,7 +396,7 @@ def decode_arm(F, body, env, lex_name="lex"):
         seq, names = name_tokens(st1)
         res.append((seq, sym(v, names)))
         # optional look-aheads: tokens read through `?` whose kind the successful path never established
-        opt = sorted({i for i in st1.eofq if i < len(st1.toks) and st1.toks[i] is None} | {i for i in st1.eofq if i >= len(st1.toks)})
+        opt = sorted({i for i in st1.eofq if i < len(st1.toks) and st1.toks[i] in (None, "$")} | {i for i in st1.eofq if i >= len(st1.toks)})
         EOF_OPTIONAL[id(res[-1][1]) if isinstance(res[-1][1], (dict, list)) else (tuple(seq), str(res[-1][1]))] = (opt, st1.consumed)
     return res
 
